@@ -40,8 +40,10 @@ def deps_of(p):
 
 
 def run(ctx):
+    import time as _t0
+    ctx.extra["t_run_start"] = round(_t0.time() - ctx.t0, 1)
     rng = ctx.rng
-    nprog = ctx.budget(40, 250)
+    nprog = ctx.budget(32, 250)
     full_upto = ctx.budget(2, 3)       # programs with at most this many files get every assignment
     sample = ctx.budget(10, 40)        # random assignments for bigger programs
     modes_all = [0, 1, 3, 7, 2, 4]
